@@ -21,7 +21,7 @@ def run(c):
     cases = r.printed("SCRIPT")
     cases.sort(key=lambda s: json.dumps(s, sort_keys=True))
     total = len(cases)
-    if quick and total > 260:
+    if quick and total > 1000:
         rnd = random.Random(c.seed)
         cases = sorted(rnd.sample(cases, 260), key=lambda s: (s["state"], json.dumps(s, sort_keys=True)))
     else:
